@@ -20,8 +20,10 @@ def capture_scenarios():
     out = []
     wrappers = ["block", "if", "fn", "while", "for", "try", "catch", "finally", "tryfn"]
     exits = ["fall", "break", "continue", "return", "throw", "error"]
-    for wrapper, npad, kind, exit_, outer_local, write_after in itertools.product(
-            wrappers, (0, 1, 2), ("read", "write", "two", "reverse"), exits, (False, True), (False, True)):
+    for wrapper, npad, kind, exit_, outer_local, write_after, postpad in itertools.product(
+            wrappers, (0, 1, 2), ("read", "write", "two", "reverse"), exits, (False, True), (False, True), (0, 2)):
+        if postpad and (npad == 1 or outer_local or exit_ in ("throw", "error")):
+            continue
         if exit_ in ("break", "continue") and wrapper not in ("while", "for"):
             continue
         if exit_ == "return" and wrapper not in ("fn", "tryfn"):
@@ -81,6 +83,9 @@ def capture_scenarios():
             b.expr(b.assign("h", b.lam(["x"], lambda: b.assign("v", b.v("x")), name="lambda-1")))
         if write_after:
             b.expr(b.assign("v", lit(2)))
+        for i in range(postpad):
+            # locals that are NOT captured, declared after the captured one: every scope exit must still close `v`
+            b.var("z%d" % i, lit(200 + i))
         if exit_ == "break":
             b.break_()
         elif exit_ == "continue":
@@ -123,7 +128,71 @@ def capture_scenarios():
         b.print(call(b.v("g")))
         if outer_local:
             b.end()
-        out.append(("cap:%s:%d:%s:%s:%s:%s" % (wrapper, npad, kind, exit_, int(outer_local), int(write_after)), b.toks))
+        out.append(("cap:%s:%d:%s:%s:%s:%s:%d" % (wrapper, npad, kind, exit_, int(outer_local), int(write_after), postpad), b.toks))
+    return out
+
+
+def capture_order_scenarios():
+    """three variables of one scope captured in every ORDER (the VM keeps the open captured variables of a fiber
+    in a list sorted by stack position), with a second closure over the first-captured one (sharing), one of the
+    closures optionally dropped before the scope ends, and the scope left in different ways."""
+    out = []
+    wrappers = ["block", "fn", "while-break", "for-continue", "fiber"]
+    for wrapper, order, drop, pads in itertools.product(wrappers, itertools.permutations("abc"), (None, 0, 1, 2), (0, 1)):
+        b = Builder()
+        for nme in ("ga", "gb", "gc", "sa", "sb", "sc"):
+            b.var(nme, lit(None))
+        if wrapper == "block":
+            b.block()
+        elif wrapper in ("fn", "fiber"):
+            b.fn("f", [])
+        elif wrapper == "while-break":
+            b.var("n", lit(0))
+            b.while_(bin_("<", b.v("n"), lit(3)))
+            b.expr(b.assign("n", bin_("+", b.v("n"), lit(1))))
+        elif wrapper == "for-continue":
+            b.for_("n", rng(0, 2))
+        b.var("a", lit("a0"))
+        if pads:
+            b.var("pad0", lit("p0"))
+        b.var("b", lit("b0"))
+        b.var("c", lit("c0"))
+        for k, x in enumerate(order):
+            if drop == k:
+                # this closure lives in an inner block only: after the block nothing but the VM's own list knows the captured variable
+                b.block()
+                b.var("tmp", b.lam([], lambda: b.v(x)))
+                b.print(call(b.v("tmp")))
+                b.end()
+            else:
+                b.expr(b.assign("g" + x, b.lam([], lambda: b.v(x))))
+            if k == 0:
+                b.expr(b.assign("s" + x, b.lam(["nv"], lambda: b.assign(x, b.v("nv")))))
+        # allocate while everything is open, then change the variables directly
+        b.var("junk", vec(tup(lit(1), vec(lit(2))), lit("j")))
+        b.expr(b.assign("b", lit("b1")))
+        if wrapper == "while-break":
+            b.break_()
+        elif wrapper == "for-continue":
+            b.continue_()
+        if wrapper in ("block", "fn", "fiber", "while-break", "for-continue"):
+            b.end()
+        if wrapper == "fn":
+            b.expr(call(b.v("f")))
+        elif wrapper == "fiber":
+            b.expr(inv(inv(b.v("Fiber"), "new", b.v("f")), "call"))
+        b.var("q0", lit("reuse0"))
+        b.var("q1", vec(lit("reuse1")))
+        b.var("q2", lit("reuse2"))
+        for x in "abc":
+            if drop is not None and order[drop] == x:
+                continue
+            b.print(call(b.v("g" + x)))
+        first = order[0]
+        b.expr(call(b.v("s" + first), lit("set")))
+        if not (drop is not None and order[drop] == first):
+            b.print(call(b.v("g" + first)))
+        out.append(("order:%s:%s:%s:%d" % (wrapper, "".join(order), drop, pads), b.toks))
     return out
 
 
